@@ -5,11 +5,11 @@ from __future__ import annotations
 import ast
 from typing import Dict, List
 
-from ..astutil import calls_in, dotted, enclosing_withs, unparse, walk_local, walk_stmts
+from ..astutil import ancestors, calls_in, dotted, enclosing_withs, name_stores, unparse, walk_local, walk_stmts
 from ..cfg import no_exc
 from ..report import Registry, sub
 from ._helpers_rules_d import attr_store_nodes, call_nodes, callee_is, ends_with_name, guard_atom_set, qualname
-from .c32 import BOOKKEEPING, check_rollback_restores, declared_methods
+from .c32 import BOOKKEEPING, _is_tx, _tx_exprs, check_rollback_restores, declared_methods
 
 R = Registry(
     "C33",
@@ -20,7 +20,11 @@ R = Registry(
         "commit() orders connection commits < COMMITTED < _remove_snapshot < close and removes the snapshot only at "
         "a transaction boundary; rollback() restores the snapshot in `finally`; the four bookkeeping maps are bound "
         "fresh at a boundary, merged into the parent on a savepoint release, consumed by rollback, and deleted "
-        "objects are detached on a root commit; close() re-links the session before announcing the end."
+        "objects are detached on a root commit (the merge keeps the first original key of a primary-key switch); "
+        "close() re-links the session before announcing the end; re-keying a state is ordered discard-under-the-"
+        "current-key < key store < re-registration; the flushes a transaction performs itself (before a savepoint "
+        "snapshot, before commit) do not depend on Session configuration such as autoflush and precede the savepoint's "
+        "fresh bookkeeping; ending a transaction while inner ones are open consumes the inner snapshots."
     ),
     not_decided="attribute values versus the database after each step; two-phase behaviour of the DBAPI.",
 )
@@ -148,7 +152,7 @@ def r3(ctx):
     check_rollback_restores(ctx)
 
 
-@R.rule("C33-R4", floor=11, template="T-SIBLING/T-FRESH",
+@R.rule("C33-R4", floor=13, template="T-SIBLING/T-FRESH",
         desc="_new/_deleted/_dirty/_key_switches: fresh WeakKeyDictionary at a transaction boundary (aliasing the "
              "parent only on the non-boundary arm), all four merged into the parent on a savepoint release, deleted "
              "objects detached on every root commit, all four consumed by _restore_snapshot")
@@ -176,11 +180,34 @@ def r4(ctx):
     rs = ctx.func(f"{ST}._remove_snapshot")
     g = ctx.cfg(rs)
     parents = {t.id for st in walk_stmts(rs.node.body) if isinstance(st, ast.Assign) and dotted(st.value) == "self._parent" for t in st.targets if isinstance(t, ast.Name)} | {"self._parent"}
+    composite = _composite_maps(ctx)
     for fld in BOOKKEEPING:
         hits = call_nodes(g, lambda c, fld=fld: isinstance(c.func, ast.Attribute) and c.func.attr == "update" and isinstance(c.func.value, ast.Attribute)
                           and c.func.value.attr == fld and dotted(c.func.value.value) in parents and len(c.args) == 1 and dotted(c.args[0]) == f"self.{fld}")
-        good = bool(hits) and all(("self.nested", True) in guard_atom_set(g, n) for n in hits)
-        ctx.check(good, f"{rs.key}:{fld}", f"releasing a savepoint does not merge self.{fld} into the parent's {fld}", f"parent.{fld}.update(self.{fld}) when nested", rs.loc)
+        # item-wise merge: `for k, v in self.<fld>.items(): <parent>.<fld>[k] = ...`
+        item_stores = []
+        for lp in [n for n in walk_local(rs.node) if isinstance(n, ast.For)]:
+            if any(isinstance(a, ast.Attribute) and a.attr == fld and dotted(a.value) == "self" for a in ast.walk(lp.iter)):
+                for st in walk_stmts(lp.body):
+                    if isinstance(st, ast.Assign):
+                        for t in st.targets:
+                            if isinstance(t, ast.Subscript) and isinstance(t.value, ast.Attribute) and t.value.attr == fld and dotted(t.value.value) in parents:
+                                item_stores.append((lp, st))
+        item_nodes = [n for lp, st in item_stores for n in g.nodes_for(st)]
+        merged = hits + item_nodes
+        good = bool(merged) and all(("self.nested", True) in guard_atom_set(g, n) for n in merged)
+        ctx.check(good, f"{rs.key}:{fld}", f"releasing a savepoint does not merge self.{fld} into the parent's {fld}", f"parent.{fld} receives self.{fld} when nested", rs.loc)
+        if fld in composite:
+            key = f"{rs.key}:{fld}:merge-keeps-original"
+            if hits:
+                ctx.violation(key, f"`{unparse(g.node(hits[0]).stmt)}` overwrites the parent's entry: the values of {fld} are {composite[fld]} whose first component is "
+                                   f"the state's key at the start of the *parent* scope; when the same object changed its key in both scopes the parent "
+                                   f"then restores the intermediate key on rollback instead of the original one", rs.loc)
+            else:
+                ctx.require(item_stores, f"_remove_snapshot: merge of {fld} not understood")
+                ok_all = all(_keeps_first_component(rs.node, st, fld, lambda e: dotted(e) in parents) for lp, st in item_stores)
+                ctx.check(ok_all, key, f"the item-wise merge of {fld} does not reuse the first component of an entry the parent already holds",
+                          "existing parent entry keeps its first component", rs.loc)
     exp = call_nodes(g, lambda c: isinstance(c.func, ast.Attribute) and c.func.attr == "_expire")
     good = bool(exp) and all({("self.nested", False), ("self.session.expire_on_commit", True)} <= guard_atom_set(g, n) for n in exp)
     ctx.check(good, f"{rs.key}:expire-on-root-commit", "identity-map states are not expired exactly on a root commit with expire_on_commit", "expire all when not nested and expire_on_commit", rs.loc)
@@ -199,6 +226,244 @@ def r4(ctx):
     rst = ctx.func(f"{ST}._restore_snapshot")
     read = {n.attr for n in ast.walk(rst.node) if isinstance(n, ast.Attribute) and dotted(n.value) == "self" and n.attr in BOOKKEEPING}
     ctx.check(read == set(BOOKKEEPING), f"{rst.key}:consumes-all-four", f"_restore_snapshot reads only {sorted(read)} of {list(BOOKKEEPING)}", "reads all four maps", rst.loc)
+    # writers of composite entries outside _remove_snapshot keep the first component of an existing entry too
+    m = ctx.index.module(SESSION)
+    for f in ctx.index.all_functions(m):
+        if f.key == rs.key or f.type_only:
+            continue
+        al = _tx_exprs(f.node)
+        for fld in composite:
+            stores = [st for st in walk_stmts(f.node.body) if isinstance(st, ast.Assign) and any(
+                isinstance(t, ast.Subscript) and isinstance(t.value, ast.Attribute) and t.value.attr == fld and _is_tx(t.value.value, al) for t in st.targets)]
+            if not stores:
+                continue
+            ctx.functions_analysed.add(f.key)
+            ok_all = all(_keeps_first_component(f.node, st, fld, lambda e, al=al: _is_tx(e, al)) for st in stores)
+            ctx.check(ok_all, f"{f.key}:{fld}:keeps-original", f"a new {fld} entry replaces an existing one without reusing its first component (the original key)",
+                      "first component taken from the existing entry when there is one", f.loc)
+
+
+def _composite_maps(ctx):
+    """{field: description} for bookkeeping maps whose stored values are not plain constants (so that a later
+    entry for the same state is not interchangeable with an earlier one)."""
+    m = ctx.index.module(SESSION)
+    out = {}
+    n_stores = 0
+    for f in ctx.index.all_functions(m):
+        al = _tx_exprs(f.node)
+        for n in walk_stmts(f.node.body):
+            if isinstance(n, ast.Assign):
+                for t in n.targets:
+                    if isinstance(t, ast.Subscript) and isinstance(t.value, ast.Attribute) and t.value.attr in BOOKKEEPING and _is_tx(t.value.value, al):
+                        n_stores += 1
+                        if not isinstance(n.value, ast.Constant):
+                            out[t.value.attr] = f"{'tuples' if isinstance(n.value, ast.Tuple) else 'computed values'} (`{unparse(n.value)}`)"
+    ctx.require(n_stores >= 3, f"only {n_stores} stores into the transaction's bookkeeping maps found")
+    return out
+
+
+def _keeps_first_component(fn_node, store: ast.Assign, fld: str, recv_ok) -> bool:
+    """The value stored is a tuple whose first element is (a local bound, on some branch, from) `<map>[<k>][0]` of a
+    map of the same field, that read being conditional on `<k> in <map>`."""
+    v = store.value
+    if not (isinstance(v, ast.Tuple) and v.elts):
+        return False
+    first = v.elts[0]
+
+    def is_existing_first(e):
+        return (isinstance(e, ast.Subscript) and isinstance(e.slice, ast.Constant) and e.slice.value == 0 and isinstance(e.value, ast.Subscript)
+                and isinstance(e.value.value, ast.Attribute) and e.value.value.attr == fld and recv_ok(e.value.value.value))
+
+    cands = []
+    if isinstance(first, ast.Name):
+        cands = [val for n, val, st in name_stores(fn_node) if n == first.id and val is not None]
+        # tuple-unpacked loop targets have no value: they are the "no existing entry" arm, fine
+    elif isinstance(first, ast.IfExp):
+        cands = [first.body, first.orelse]
+    else:
+        cands = [first]
+    if not any(is_existing_first(c) for c in cands):
+        return False
+    # the read is conditional on membership in the same field's map
+    for n in ast.walk(fn_node):
+        if isinstance(n, ast.Compare) and len(n.ops) == 1 and isinstance(n.ops[0], (ast.In, ast.NotIn)):
+            c = n.comparators[0]
+            if isinstance(c, ast.Attribute) and c.attr == fld and recv_ok(c.value):
+                return True
+    return False
+
+
+# ---------------------------------------------------------------------- C33-R6: re-keying order
+DISCARDS = ("safe_discard", "discard", "_fast_discard")
+REGISTERS = ("replace", "add")
+
+
+def _imap_call(c: ast.Call, methods, var: str) -> bool:
+    return (isinstance(c.func, ast.Attribute) and c.func.attr in methods and (dotted(c.func.value) or "").endswith("identity_map")
+            and len(c.args) >= 1 and isinstance(c.args[0], ast.Name) and c.args[0].id == var)
+
+
+@R.rule("C33-R6", floor=2, template="T-PATH",
+        desc="the identity map files a state under state.key: wherever orm/session.py assigns a new key to a state that it "
+             "also discards from / registers in the identity map, within one pass the discard (which looks the state up "
+             "under its current key) precedes the key store and the re-registration follows it")
+def r6(ctx):
+    m = ctx.index.module(SESSION)
+    pm = m.parents()
+    n_inst = 0
+    for f in ctx.index.all_functions(m):
+        if f.type_only:
+            continue
+        stores = {}
+        for st in walk_stmts(f.node.body):
+            if isinstance(st, ast.Assign) and not (isinstance(st.value, ast.Constant) and st.value.value is None):
+                for t in st.targets:
+                    if isinstance(t, ast.Attribute) and t.attr == "key" and isinstance(t.value, ast.Name):
+                        stores.setdefault(t.value.id, []).append(st)
+        for var, sts in sorted(stores.items()):
+            calls = [c for c in calls_in(f.node) if _imap_call(c, DISCARDS + REGISTERS, var)]
+            if not calls:
+                continue
+            ctx.functions_analysed.add(f.key)
+            g = ctx.cfg(f)
+            disc = call_nodes(g, lambda c: _imap_call(c, DISCARDS, var))
+            reg = call_nodes(g, lambda c: _imap_call(c, REGISTERS, var))
+            problems, wit = [], None
+            for st in sts:
+                loops = [a for a in ancestors(pm, st) if isinstance(a, (ast.For, ast.While))]
+                inner = None
+                for a in ancestors(pm, st):
+                    if a is f.node:
+                        break
+                    if isinstance(a, (ast.For, ast.While)):
+                        inner = a
+                        break
+                heads = g.nodes_for(inner) if inner is not None else []
+                starts = heads or [g.entry]
+                for N in g.nodes_for(st):
+                    fresh = (f"{var}.key is None", True) in guard_atom_set(g, N)
+                    if not fresh:
+                        w = g.witness(starts, [N], avoid=disc)
+                        if w is not None or not disc:
+                            problems.append(f"`{unparse(st)}` can run before identity_map.{'/'.join(DISCARDS[:1])}({var}): the entry filed under the state's current key is never removed")
+                            wit = wit or (g.describe_path(w) if w else None)
+                    w = g.witness([N], disc, avoid=heads)
+                    if w is not None:
+                        problems.append(f"identity_map discard of `{var}` runs after `{unparse(st)}`: it looks the state up under the NEW key, so the entry under the previous key stays in the identity map")
+                        wit = wit or g.describe_path(w)
+                    w = g.witness(reg, [N], avoid=heads)
+                    if w is not None:
+                        problems.append(f"`{var}` is registered in the identity map before `{unparse(st)}` (filed under the previous key)")
+                        wit = wit or g.describe_path(w)
+                    if g.witness([N], reg, avoid=heads) is None:
+                        problems.append(f"after `{unparse(st)}` the state is never registered again under its new key")
+            n_inst += 1
+            uniq = []
+            for p_ in problems:
+                if p_ not in uniq:
+                    uniq.append(p_)
+            ctx.check(not uniq, f"{f.key}:rekey[{var}]", "; ".join(uniq), f"{len(sts)} key store(s): discard < key store < register", f.loc, wit)
+    ctx.require(n_inst >= 1, "no re-keying site found in orm/session.py")
+
+
+# ---------------------------------------------------------------------- C33-R7: the transaction's own flushes
+def _session_config_attrs(ctx):
+    init = ctx.func(f"{SESSION}::Session.__init__")
+    params = set(init.params)
+    out = set()
+    for st in walk_stmts(init.node.body):
+        if isinstance(st, ast.Assign) and isinstance(st.value, ast.Name) and st.value.id in params:
+            for t in st.targets:
+                if isinstance(t, ast.Attribute) and dotted(t.value) == "self" and not t.attr.startswith("__"):
+                    out.add(t.attr)
+    ctx.require(len(out) >= 4, f"Session.__init__ binds only {sorted(out)} from its parameters")
+    return out
+
+
+@R.rule("C33-R7", floor=3, template="T-GUARD/T-PATH",
+        desc="the flushes SessionTransaction performs itself (before taking a savepoint snapshot, before commit) are "
+             "conditioned only on transaction structure / re-entrancy: no dominating test reads a Session configuration "
+             "attribute (one that Session.__init__ binds from a constructor parameter, e.g. autoflush); in _take_snapshot "
+             "the flush exists and precedes the binding of the savepoint's fresh bookkeeping maps")
+def r7(ctx):
+    cfgattrs = _session_config_attrs(ctx)
+    cls = ctx.index.cls(ST)
+    n_sites = 0
+    for name, f in sorted(cls.methods.items()):
+        sess = {n for n, v, st in name_stores(f.node) if v is not None and dotted(v) == "self.session"} | {"self.session"}
+        if not any(isinstance(c.func, ast.Attribute) and c.func.attr == "flush" and dotted(c.func.value) in sess for c in calls_in(f.node)):
+            continue
+        g = ctx.cfg(f)
+        fl = call_nodes(g, lambda c: isinstance(c.func, ast.Attribute) and c.func.attr == "flush" and dotted(c.func.value) in sess)
+        binds = {n: v for n, v, st in name_stores(f.node) if v is not None}
+
+        def config_reads(expr, depth=0):
+            out = []
+            for a in ast.walk(expr):
+                if isinstance(a, ast.Attribute) and a.attr in cfgattrs and dotted(a.value) in sess:
+                    out.append(unparse(a))
+                elif isinstance(a, ast.Name) and a.id in binds and depth < 2:
+                    out.extend(config_reads(binds[a.id], depth + 1))
+            return out
+
+        bad = []
+        for n in fl:
+            for t, pol in g.edge_guards(n):
+                for r_ in config_reads(t):
+                    txt = f"`{r_}` (in `{unparse(t)}`)"
+                    if txt not in bad:
+                        bad.append(txt)
+        n_sites += 1
+        ctx.check(not bad, f"{f.key}:flush-guards",
+                  f"the flush that {name}() performs depends on Session configuration {', '.join(bad)}: with that setting off, work done before this point is "
+                  f"still unflushed when the transaction scope starts/ends and is attributed to the wrong scope",
+                  f"{len(fl)} flush call(s), guards free of Session configuration", f.loc)
+    ctx.require(n_sites >= 2, f"only {n_sites} SessionTransaction method(s) flush the session")
+    ts = ctx.func(f"{ST}._take_snapshot")
+    g = ctx.cfg(ts)
+    fl = call_nodes(g, lambda c: isinstance(c.func, ast.Attribute) and c.func.attr == "flush" and dotted(c.func.value) == "self.session")
+    fresh = [n for fld in BOOKKEEPING for n in attr_store_nodes(g, fld, lambda v: isinstance(v, ast.Call), "self")]
+    ctx.require(fresh, "_take_snapshot binds no fresh maps")
+    if not fl:
+        ctx.violation(f"{ts.key}:flush-before-fresh-maps", "_take_snapshot() no longer flushes before a savepoint snapshot is taken: pending work done before "
+                      "begin_nested() is attributed to the savepoint and lost when it is rolled back", ts.loc)
+    else:
+        w = g.witness(fresh, fl)
+        ctx.check(w is None, f"{ts.key}:flush-before-fresh-maps",
+                  "the pre-savepoint flush can run after the savepoint's fresh bookkeeping maps were bound: the flushed objects are recorded as belonging to the savepoint",
+                  "flush precedes the fresh maps", ts.loc, g.describe_path(w) if w else None)
+
+
+# ---------------------------------------------------------------------- C33-R8: inner transactions still open
+@R.rule("C33-R8", floor=2, template="T-SIBLING",
+        desc="when commit/rollback of a transaction finds inner transactions still open (the walk over "
+             "session._transaction._iterate_self_and_parents(upto=self)), each inner one is ended through an operation that "
+             "consumes its snapshot (reaches _remove_snapshot or _restore_snapshot): an inner SAVEPOINT owns fresh "
+             "bookkeeping maps (C33-R4) that are otherwise dropped")
+def r8(ctx):
+    cls = ctx.index.cls(ST)
+    consumers = {"_restore_snapshot", "_remove_snapshot"}
+    for name, f in cls.methods.items():
+        if any(isinstance(c.func, ast.Attribute) and c.func.attr in ("_restore_snapshot", "_remove_snapshot") for c in calls_in(f.node)):
+            consumers.add(name)
+    n = 0
+    for name, f in sorted(cls.methods.items()):
+        for lp in [x for x in walk_local(f.node) if isinstance(x, ast.For)]:
+            it = lp.iter
+            if not (isinstance(it, ast.Call) and isinstance(it.func, ast.Attribute) and it.func.attr == "_iterate_self_and_parents"
+                    and any(k.arg == "upto" and dotted(k.value) == "self" for k in it.keywords) and isinstance(lp.target, ast.Name)):
+                continue
+            v = lp.target.id
+            called = sorted({c.func.attr for c in calls_in(lp) if isinstance(c.func, ast.Attribute) and isinstance(c.func.value, ast.Name) and c.func.value.id == v})
+            ctx.require(called, f"{f.key}: the walk over inner transactions calls nothing on `{v}`")
+            n += 1
+            good = any(c in consumers for c in called)
+            ctx.check(good, f"{f.key}:inner-transactions",
+                      f"{name}() ends inner open transactions with {'/'.join(called)}() only, which neither restores nor merges their snapshot: objects added/deleted/"
+                      f"re-keyed inside a still-open inner SAVEPOINT keep their in-savepoint state (persistent / deleted) after this rollback although the database "
+                      f"no longer has the rows",
+                      f"inner transactions ended with {'/'.join(called)}()", f.loc)
+    ctx.require(n >= 1, "no walk over inner transactions found")
 
 
 @R.rule("C33-R5", floor=3, template="T-PATH",
